@@ -1166,3 +1166,116 @@ func ruleFlagLive(c *Ctx, r *Report) {
 	}
 	r.analysed(rule, fmt.Sprintf("%d clause-reading loops, by-value copies in NewParser: %v", loops, fields))
 }
+
+// ---------------------------------------------------------------------------
+// C09: R-RETRACT-REMOVES — added after seed C09e.  "retract/1 removes exactly the clause it unified with ...
+// every clause is removed at most once": retract/1 succeeds only by removing a clause.  In retract/1 and its
+// closures every call of the continuation is dominated by a write of userDefined.clauses in the same function
+// (the removal).  A continuation reached without the removal - the clause had already been removed by a nested
+// retract or from another query - reports a second removal of the same clause.
+func ruleRetractRemoves(c *Ctx, r *Report) {
+	const rule = "R-RETRACT-REMOVES"
+	retract := c.registeredFn("retract", 1)
+	if retract == nil {
+		r.undecided(rule, "anchor:retract/1", "-", "locate retract/1", "not registered")
+		return
+	}
+	desc := "retract/1 calls its continuation only after it has removed a clause"
+	ks := paramsWhere(retract, c.isContType)
+	if len(ks) != 1 {
+		r.undecided(rule, "anchor:continuation", c.Pos(retract.Pos()), desc, "the continuation parameter was not recognised")
+		return
+	}
+	writes := map[*ssa.Function][]ssa.Instruction{}
+	for _, w := range c.stateWrites("userDefined", "clauses") {
+		writes[w.fn] = append(writes[w.fn], w.in)
+	}
+	n := 0
+	for _, fn := range withAnon(retract) {
+		eachInstr(fn, func(in ssa.Instruction) {
+			call, ok := in.(*ssa.Call)
+			if !ok || call.Call.IsInvoke() {
+				return
+			}
+			isK := false
+			for _, l := range c.originSet(call.Call.Value) {
+				if l == ssa.Value(ks[0]) {
+					isK = true
+				}
+				if fv, ok := l.(*ssa.FreeVar); ok && fv.Name() == ks[0].Name() && isEngNamed(fv.Type(), "Cont") {
+					isK = true
+				}
+			}
+			if !isK {
+				return
+			}
+			n++
+			key := fmt.Sprintf("%s/k()#%d", fname(fn), n)
+			removed := false
+			for _, w := range writes[fn] {
+				if (w.Block() == in.Block() && instrIndex(w) < instrIndex(in)) || (w.Block() != in.Block() && w.Block().Dominates(in.Block())) {
+					removed = true
+				}
+			}
+			if removed {
+				r.ok(rule, key, c.at(in), desc, "dominated by the write of userDefined.clauses that removes the clause", true)
+			} else {
+				r.bad(rule, key, c.at(in), desc, "the continuation is reachable without a clause having been removed: an alternative of an open retract/1 whose clause is already gone succeeds, and the clause counts as removed twice")
+			}
+		})
+	}
+	if n == 0 {
+		r.undecided(rule, "anchor:k-calls", c.Pos(retract.Pos()), desc, "no call of the continuation found in retract/1")
+	}
+}
+
+// ---------------------------------------------------------------------------
+// C20: R-DIRECTIVE-FLUSH — added after seed C20e.  "Clauses of a predicate separated by others without a
+// discontiguous declaration" make the load fail.  The loader notices the end of a run of consecutive clauses in
+// two places: when a clause of another predicate arrives, and when a directive arrives.  Every directive ends
+// the run - whichever it is: in the function that handles a directive the staging buffer is flushed on every
+// path (the call of text.flush dominates every return).  A directive kind that is exempted "because it only
+// queues a goal" lets foo(5). :- initialization(g). foo(6). bar(7). foo(8)... load as one run.
+func ruleDirectiveFlush(c *Ctx, r *Report) {
+	const rule = "R-DIRECTIVE-FLUSH"
+	desc := "every directive ends the current run of clauses: the staging buffer is flushed on every path through the directive handler"
+	dir := c.method("VM", "directive")
+	flush := c.method("text", "flush")
+	if dir == nil || flush == nil {
+		r.undecided(rule, "anchor:VM.directive/text.flush", "-", "locate the directive handler and text.flush", "not found")
+		return
+	}
+	var calls []*ssa.Call
+	eachInstr(dir, func(in ssa.Instruction) {
+		if call, ok := in.(*ssa.Call); ok && call.Call.StaticCallee() == flush {
+			calls = append(calls, call)
+		}
+	})
+	key := fname(dir) + "/flush-first"
+	if len(calls) == 0 {
+		r.bad(rule, key, c.Pos(dir.Pos()), desc, "the directive handler never flushes the staging buffer")
+		return
+	}
+	var miss *ssa.Return
+	eachInstr(dir, func(in ssa.Instruction) {
+		ret, ok := in.(*ssa.Return)
+		if !ok {
+			return
+		}
+		dominated := false
+		for _, call := range calls {
+			if call.Block() == ret.Block() || call.Block().Dominates(ret.Block()) {
+				dominated = true
+			}
+		}
+		if !dominated && miss == nil {
+			miss = ret
+		}
+	})
+	if miss == nil {
+		r.ok(rule, key, c.at(calls[0]), desc, "the call of text.flush dominates every return of the handler", true)
+	} else {
+		r.bad(rule, key, c.at(miss), desc, "this return is reachable without the flush: a directive of that kind between two clauses of one predicate does not end the run, and the discontiguity goes unnoticed")
+	}
+	r.analysed(rule, fname(dir))
+}
